@@ -298,7 +298,7 @@ def tz_words():
 
 @st.composite
 def cases(draw):
-    e = corpus()[draw(st.integers(0, len(corpus()) - 1))]
+    e = draw(st.sampled_from(corpus()))
     s, detected = e["s"], lang_of(e["locale"])
     order = data.language_order()
     exp = draw(st.sampled_from(["A", "A", "A", "B", "C", "D", "A-tz", "A-num", "E"]))
@@ -401,8 +401,34 @@ def _locale_walk(ctx):
     return it
 
 
+def _corpus_walk(ctx):
+    """every corpus string: autodetection reproducible (B) and one seeded language list that contains the string's language (A)
+    (thorough: four lists).  Enumerated, because index draws into a 3,000-string pool by Hypothesis revisit a small part of it."""
+    def it(shard, nshards):
+        order = data.language_order()
+        for i, e in enumerate(corpus()):
+            if i % nshards != shard:
+                continue
+            detected = lang_of(e["locale"])
+            yield {"exp": "B", "s": e["s"]}
+            for j in range(1 if ctx.quick else 4):
+                h = derive_seed(ctx.seed, "langs", i, j)
+                k = 2 + h % 3
+                langs = []
+                for t in range(k):
+                    L = order[(h >> (8 + 9 * t)) % (25 if t % 2 else len(order))]
+                    if L not in langs:
+                        langs.append(L)
+                if detected in order and detected not in langs:
+                    langs[(h >> 4) % len(langs)] = detected
+                yield {"exp": "A", "s": e["s"], "langs": langs, "given_order": bool((h >> 40) & 1),
+                       "defaults": [["en"], None, None, ["fr", "en"]][(h >> 44) % 4]}
+    return it
+
+
 def stages(ctx):
-    out = [Stage("experiments", "hyp", strategy=cases(), examples=ctx.n(8000, 120000))]
+    out = [Stage("corpus_walk", "enum", cases=_corpus_walk(ctx), exhaustive=False),
+           Stage("experiments", "hyp", strategy=cases(), examples=ctx.n(7000, 120000))]
     if not ctx.quick:
         out.append(Stage("locale_walk", "enum", cases=_locale_walk(ctx), exhaustive=True))
     return out
